@@ -17,6 +17,7 @@ class Model:
         self.ends = []          # per link: list of vertex idx / None
         self.cls = []           # per link: class index into classes.LINK_CLASSES
         self.members = {u: [] for u in uidx}
+        self.nbulk = 0
 
     # -- helpers
     def _attach(self, v, l):
@@ -79,6 +80,17 @@ class Model:
                 for x in {a, b}:
                     self.links_of[x].remove(l)
             return ("none",) if destroy else ("set", rem)
+        if name == "bulk":
+            _, a, b, ci, K = r
+            for _ in range(K):
+                self._new_link(ci, a, b)
+            return ("none",)
+        if name == "bulk_u":
+            _, u, K = r
+            for _ in range(K):
+                self.members[u].append("b%d" % self.nbulk)
+                self.nbulk += 1
+            return ("none",)
         if name in ("ua", "va"):
             u, v = r[1], r[2]
             if v not in self.members[u]:
